@@ -967,6 +967,7 @@ func (s *aggSession) run(ops []plan.Op) {
 		case "resetall":
 			s.opResetAll(i)
 		case "query":
+			s.opQuery(op)
 		}
 		if s.fuzzyAccepted {
 			return
@@ -974,6 +975,25 @@ func (s *aggSession) run(ops []plan.Op) {
 		s.checkAll(fmt.Sprintf("after op %d (%s)", i, op.K))
 		if s.stopNow() {
 			return
+		}
+	}
+}
+
+// opQuery asks for the records of all flows, or of those matching a partial key. Asking changes
+// nothing: the checks after this operation, and after every later one, are the same as without it.
+func (s *aggSession) opQuery(op plan.Op) {
+	var fkp *intermediate.FlowKey
+	switch {
+	case op.A%3 == 1:
+		fkp = &intermediate.FlowKey{Protocol: 6}
+	case op.A%3 == 2 && len(s.keyV6) > 0:
+		fkp = &intermediate.FlowKey{SourceAddress: aggKeyOf(0, s.keyV6[0]).SourceAddress}
+	}
+	recs := s.ap.GetRecords(fkp)
+	s.env.Count("probe.query_all_or_partial_key", 1)
+	if fkp == nil || fkp.Protocol == 6 {
+		if len(recs) != len(s.model.Flows) {
+			s.env.Violate("c05-flow-count", "query", "GetRecords(%v) returned %d records, %d flows are held", fkp, len(recs), len(s.model.Flows))
 		}
 	}
 }
